@@ -64,6 +64,20 @@ Example C01_example_switch :
   switch_exec ex_switch 2%Z = [40]%N /\ switch_exec (drop_default_fallthrough ex_switch) 7%Z = [20]%N.
 Proof. repeat split; vm_compute; reflexivity. Qed.
 
+(* keyed struct literals: the key denotes the field with exactly that name (what Go does and what cl's
+   lookupField does); resolving a capitalised alias in the same pass picks another field as soon as a field
+   spelt that way is declared earlier (the seeded defect seeded/C01b) *)
+Theorem C01_lookup_field_exact :
+  forall fs name i, lookup_field fs name = Some i -> nth_error fs i = Some name.
+Proof. exact lookup_field_exact. Qed.
+Theorem C01_lookup_field_alias_harmless_without_pair :
+  forall fs name, forallb (fun f => negb (str_eqb f (capitalise name)) || str_eqb f name) fs = true ->
+    lookup_field_alias fs name = lookup_field fs name.
+Proof. exact lookup_field_alias_same. Qed.
+Theorem C01_lookup_field_alias_refuted :
+  exists fs name i j, lookup_field fs name = Some i /\ lookup_field_alias fs name = Some j /\ i <> j.
+Proof. exact lookup_field_alias_refuted. Qed.
+
 (* ---- non-vacuity: defer/recover, a labelled loop, a struct with grouped fields, parentheses ---- *)
 Definition ex_prog : prog :=
   [ DStruct 1 [([1; 2], VInt 0); ([3], VStr [])];
@@ -100,4 +114,7 @@ Print Assumptions C01_emit_order_permutation.
 Print Assumptions C01_switch_drop_default_fallthrough_harmless_without.
 Print Assumptions C01_switch_last_clause_fallthrough_irrelevant.
 Print Assumptions C01_switch_drop_default_fallthrough_refuted.
+Print Assumptions C01_lookup_field_exact.
+Print Assumptions C01_lookup_field_alias_harmless_without_pair.
+Print Assumptions C01_lookup_field_alias_refuted.
 Print Assumptions C01_emit_order_init_refuted.
